@@ -27,6 +27,30 @@ NEEDS_I = {
  "C20": ("ValidateSNIService caches the parsed server name; later requests are compared with the cached name", "one service instance (or a clone taken after first use) serving requests of several connections: a request with another or no server name after one with a parsable name"),
 }
 
+
+NEEDS_J = {
+ "C01": ("the hyper-to-tokio read direction of TokioIo is rewritten without `unsafe`: it hands hyper `initialized_mut()`, which includes the already filled prefix", "an upgraded connection wrapped as a tokio reader and a message that arrives in several pieces under read_exact: earlier bytes are overwritten, the tail is zeros (or advance panics)"),
+ "C02": ("WhenReady remembers that it polled the connection once and got 'not ready'; on any later poll it finishes at once without asking again", "a connection type whose is_open stays true while busy, the hand-back task polled a second time while the connection is still busy (a spurious wake-up, e.g. one per body chunk), another request for the origin"),
+ "C03": ("Pool::checkout holds the pool lock only for the book-keeping: the decision (idle connection / wait for the in-flight attempt / own attempt) is taken under one acquisition and acted on under a second", "TWO THREADS: the owner's attempt ends (cancel, failure or completion) on another thread between the two acquisitions of a newcomer's `call`: the newcomer registers as a pure waiter of an attempt that no longer exists and stays pending"),
+ "C04": ("Pool::checkout is split into checkout_idle (pop) and checkout_connect (waiter / marker registration), two separate lock acquisitions", "TWO THREADS: a release or an HTTP/2 attempt completion lands between the two acquisitions of one `call`: the request dials although an idle connection exists / dials a second HTTP/2 connection"),
+ "C05": ("Pool::checkout reads the clock before it takes the pool lock and judges expiry against that instant", "TWO THREADS: the check-out waits for the lock while an idle connection's age crosses idle_timeout: the expired connection is handed out"),
+ "C06": ("TokenMap::insert is split into a read-only lookup (which reserves the current counter for a new key) and a later register; the reserved token is never re-validated", "TWO THREADS: two first-ever check-outs for two different origins whose lookups both precede either registration get the same token and share idle list, waiters and marker"),
+ "C07": ("CloseSender sends on Drop instead of on an explicit send(); GracefulShutdown::poll no longer sends at the signal", "the caller keeps the completed server future alive ((&mut server).await, select! on &mut server) with a connection open at the signal: the future returns Ok but no connection is told to shut down"),
+ "C08": ("after a read that matches the preface but leaves fewer than 24 bytes the sniffer returns Pending instead of reading again - without a waker registered", "a first read of 1..23 bytes that all match the preface: when the rest arrives nobody is woken; a fragmented HTTP/2 preface is never served"),
+ "C09": ("DuplexIncoming::poll_accept takes connect requests off the channel in batches (poll_recv_many); on a departed client it `continue`s while the rest of the batch sits in a local variable", ">=2 connect requests queued when the accept loop polls, an earlier one whose connect future was polled once and dropped: the clients queued behind it get ConnectionReset"),
+ "C10": ("TcpConnecting::connect opens and binds the socket while the candidate list is built (`connect(..)?`) instead of inside each candidate's future", ">=2 candidates of which one fails at socket set-up (a local source address that cannot be bound, an unavailable family) and another would accept: the whole connect fails at once"),
+ "C11": ("process_all is refactored around start_next(); the Error arm starts the next candidate and then falls through to the shared start_next() at the bottom of the loop", "a failure during the start phase with >=2 candidates still queued: one failure starts two candidates, the second without an elapsed stagger delay"),
+ "C12": ("TlsStream::handshake turns Poll::Ready(Err(UnexpectedEof)) into Ok(default) ('peer closed without close_notify')", "https/wss, the peer closes after the ClientHello or sends a truncated ServerHello: the transport returns Ok(stream) for a handshake that never completed"),
+ "C13": ("HttpConnectionBuilder::handshake treats ALPN as authoritative: if TLS negotiated any HTTP version that decides the protocol and the request's version is ignored", "a new TLS connection whose ALPN result is http/1.1 and a request whose version is HTTP/2: HTTP/1.1 on the wire instead of the h2 preface"),
+ "C14": ("register_connected() registers the finished dial with poolref.try_lock() instead of lock() ('do not park the executor on the pool mutex')", "TWO THREADS: a background (continued-after-cancel) HTTP/2 dial finishes while another thread holds the pool mutex: the connection is dropped instead of pooled, followers fail"),
+ "C15": ("Pool::checkout takes the origin's idle list out of the map under one lock, probes is_open() without the lock and merges the leftovers back (prepend) without checking max_idle_per_host", "THREE overlapping operations: max_idle_per_host >= 2, two idle connections, a check-out overlapping with two releases that refill a fresh list: 2*max-1 idle connections"),
+ "C16": ("sort_preferred is rewritten: it finds the first IPv4 and IPv6 address by value, removes them with retain(|a| ..) and pushes them to the front", "a list in which the first address of a family occurs again: every equal entry is removed, addresses are lost"),
+ "C17": ("ConnectorService::call exempts CONNECT requests from the 'URI has no scheme' guard (keyed on the method, not on the URI having an authority)", "CONNECT with `*` or an origin-form URI through ConnectorService on an HTTP/1 connection: unreachable!() in authority_form"),
+ "C18": ("Braid gains a sticky end-of-stream flag: after a successful read that added no bytes every later read reports EOF; it never checks that the buffer had room", "data pending on the transport, one read with zero free room through Braid / client Stream / server Stream, then any read: EOF, the bytes in flight are lost"),
+ "C19": ("TimeoutFuture::poll returns the timeout error when the timer has elapsed, before it polls the inner future", "the future polled once, the inner resolves in time, the next poll happens only after the deadline has fired (a busy caller): the inner result is replaced by the timeout error"),
+ "C20": ("TlsConnectionInfoReciever::recv takes the shared state by value (mem::take leaves Empty) before it awaits the receiver", "a request future of the per-connection stack polled before the handshake has delivered its info and then dropped: the connection is treated as plaintext from then on, any Host is forwarded unmarked"),
+}
+
 NEEDS_H = {}
 src = open('/verif/tools/keep_seeds.py').read()
 m = re.search(r'NEEDS_H = \{(.*?)\n\}', src, re.S)
@@ -34,7 +58,7 @@ for mm in re.finditer(r'"(C\d\d)": \("([^"]*)", "((?:[^"\\]|\\.)*)", "((?:[^"\\]
     NEEDS_H[mm.group(1)] = (mm.group(3), mm.group(4))
 
 root, suffix, confirm_glob, asis_log, final_log = sys.argv[1:6]
-NEEDS = NEEDS_I if suffix == 'i' else NEEDS_H
+NEEDS = NEEDS_I if suffix == 'i' else NEEDS_J if suffix == 'j' else NEEDS_H
 
 confirm = {}
 for f in glob.glob(confirm_glob):
@@ -79,8 +103,8 @@ for pid in sorted(NEEDS):
     a, f_ = asis.get(pid), final.get(pid, dict(caught=[], machinery=[], silent=[]))
     meta = {
         "seed": f"{pid.lower()}{suffix}", "breaks_property": pid, "change": NEEDS[pid][0], "needs_to_manifest": NEEDS[pid][1],
-        "written_by": "independent sub-agent given only the property text and a scratch worktree" if suffix == 'i' else "re-created by a sub-agent from the one-line description of the round-8 change (the original patch and demonstration were lost with the scratch directory when the session was interrupted)",
-        "base_commit": "ce334d6 (patch.diff); patch_on_head.diff, where present, is the same change rebased onto the later hook / fix commits",
+        "written_by": "independent sub-agent given only the property text and a scratch worktree" if suffix in ('i', 'j') else "re-created by a sub-agent from the one-line description of the round-8 change (the original patch and demonstration were lost with the scratch directory when the session was interrupted)",
+        "base_commit": ("1ad2fed" if suffix == 'j' else "ce334d6") + " (patch.diff); patch_on_head.diff, where present, is the same change rebased onto the later hook / fix commits",
         "confirmed_in_scratch_worktree": {
             "command": f"tools/confirm_seed9.sh {pid} {c['features']}".strip() + f"  (SEED_ROOT={root}: pinned suite with the change, then demo/seed_demo.rs with and without it)",
             "suite_with_change": c['suite'], "demo_with_change": c['demo_with'], "demo_without_change": c['demo_without'],
